@@ -630,7 +630,7 @@ def fn_inserts(u, m, d, it, info, used_fns, probe_fn):
                 dummy = re.sub(rx, rp, dummy)
             dummy = re.sub(r"<(\w+): AsRef<str>>", r"<\1>", dummy)
             ins.append((it["body_start"] + 1, -1, dummy, ("gen", "verus_spec return-name workaround")))
-    info["functions"].append({"fn": full, "file": m.file, "line": it["line"], "line_end": it["line_end"], "contract": True, "props": fs.props, "has_body": "body_start" in it})
+    info["functions"].append({"fn": full, "file": m.file, "line": it["line"], "line_end": it["line_end"], "contract": True, "props": fs.props, "has_body": "body_start" in it, "n_loops": len(it.get("loops", []))})
     for lineno, t in fs.spec:
         if t.strip():
             info["clauses"].append({"file": fs.specfile, "fn": full, "spec_line": lineno, "text": t.strip(), "props": clause_props(t, fs.props), "where": "spec"})
